@@ -200,7 +200,7 @@ def jobs(chk, tier):
     rnd = C.rng('c07')
     frac = 0.25 if tier == 'quick' else 0.6
     for r, g in records(chk, tier, INVS):
-        yield (r, g, C.seed(), rnd.random() < frac)
+        yield (r, g, C.seed(), C.pick([r['input'], g], frac, 'c07-solve'))
 
 
 def run(tier):
